@@ -90,7 +90,7 @@ def run_behaviour(bid, beh, seed, observe=None, expose=None):
             mabs = step["msg"]
             ev["msg"] = mabs
             if kind == "merge":
-                text = g.msg(mabs, message_id=2000 + idx, loose_mid=bool(execute.completed_of(ro)))
+                text = g.msg(mabs, message_id=2000 + idx, loose_mid=all(execute.completed_of(r) for r in objs.values()))      # (the object may be merged again, into another running order)
                 proj = project.project_msg_xml(mabs["cls"], ElementTree.fromstring(text))
                 if not project.bind(mabs, proj, table):
                     raise Machinery("gamma/alpha round trip failed for message %s" % eid)
